@@ -8,6 +8,7 @@ from ..vflow import Canon, access_path, fields_in_path, strip_int_casts
 from ..guards import dominating_edges, Facts
 from ..cfg import reachable_from
 from ..build import AnalysisBroken
+from ..ir import INT
 from . import c09
 
 EXPLANATION = (
@@ -22,6 +23,7 @@ EXPLANATION = (
 BSWAP = {'@__libec_bswap_32': 32, '@llvm.bswap.i32': 32, '@__bswap_32': 32, '@__libec_bswap_64': 64, '@llvm.bswap.i64': 64,
          '@__bswap_64': 64, '@__libec_bswap_16': 16, '@llvm.bswap.i16': 16}
 MAGIC = 0x0b0c5ecc
+SWAPPED_MAGIC = 0xcc5e0c0b      # the magic as an opposite-endian writer stores it
 
 def run(ctx):
     P = ctx.program()
@@ -49,7 +51,9 @@ def run(ctx):
     for b in f.order:
         F = Facts(P, f, b)
         sw = any(pr == 'eq' and ((re.match(r'^@(__libec_bswap_32|llvm\.bswap\.i32|__bswap_32)\(\*arg0\.magic\)$', a) and const_of(bb) == MAGIC) or
-                                 (re.match(r'^@(__libec_bswap_32|llvm\.bswap\.i32|__bswap_32)\(\*arg0\.magic\)$', bb) and const_of(a) == MAGIC))
+                                 (re.match(r'^@(__libec_bswap_32|llvm\.bswap\.i32|__bswap_32)\(\*arg0\.magic\)$', bb) and const_of(a) == MAGIC) or
+                                 (a == '*arg0.magic' and const_of(bb) is not None and const_of(bb) & 0xffffffff == SWAPPED_MAGIC) or
+                                 (bb == '*arg0.magic' and const_of(a) is not None and const_of(a) & 0xffffffff == SWAPPED_MAGIC))
                  for pr, a, bb in F.facts)
         if sw:
             region.append(b)
@@ -79,80 +83,109 @@ def run(ctx):
             else:
                 r.ok(inst + ': not touched', func=f.name, trivial=True)
             continue
-        if len(st) != 1:
+        union_ok = False
+        if len(st) > 1 and f.mod.md_fields(tref).get('tag') == 'DW_TAG_array_type':
+            # an element loop with iterations peeled off (`chksum[0] = ...; for (i = 1; ...)`): the stores together must write every
+            # element exactly once
+            from ..poly import PolyCtx as _PCu
+            from ..loops import loops_of as _lou, innermost as _inu, affine_in_t as _affu
+            pcu = _PCu(P, f, C)
+            LSu = _lou(P, f, pcu)
+            nel_u = size // w
+            seen_u, dup_u = set(), False
+            for i_u, steps_u in st:
+                arr_u = [s_ for s_ in steps_u if s_[0] == 'index']
+                idxs = None
+                if arr_u and INT.match(str(arr_u[0][1])):
+                    idxs = {int(arr_u[0][1])}
+                elif arr_u:
+                    Lu = _inu(LSu, i_u.bb)
+                    if Lu is not None:
+                        it_u = Lu.at_iteration(pcu.val(arr_u[0][1]))
+                        ab_u = _affu(it_u) if it_u is not None else None
+                        N_u, rot_u = Lu.runs()
+                        if ab_u is not None and ab_u[0].is_const() and ab_u[1].is_const() and N_u is not None and N_u.is_const() and not rot_u:
+                            idxs = {ab_u[0].const_value() + ab_u[1].const_value() * t_ for t_ in range(max(0, N_u.const_value()))}
+                if idxs is None:
+                    seen_u = None
+                    break
+                dup_u = dup_u or bool(seen_u & idxs)
+                seen_u |= idxs
+            union_ok = seen_u is not None and not dup_u and seen_u == set(range(nel_u))
+        if len(st) != 1 and not union_ok:
             loc = st[0][0].loc if st else f.mod.src
             r.fail(inst, func=f.name, sig=f'{len(st)} stores to {name} in the swapped branch', loc=loc,
                    msg=f'member {name} is byte-swapped {len(st)} times in the swapped branch (exactly once required)' if st else
                        f'member {name} ({w} bits) is never byte-swapped: an opposite-endian fragment yields a wrong {name}')
             continue
-        i, steps = st[0]
-        v = i.ops[0]
-        d = f.defs.get(v)
-        chain = []
-        while d is not None and d.op in ('trunc', 'zext', 'sext'):
-            chain.append(d.op); d = f.defs.get(d.ops[0])
-        if d is None or d.op != 'call' or d.callee not in BSWAP:
-            r.fail(inst, func=f.name, sig=f'{name} := {C.val(v)[:60]}', loc=i.loc, msg=f'value stored into {name} is not a byte swap: {C.val(v)}')
-            continue
-        n = BSWAP[d.callee]
-        a = d.ops[0]
-        ad = f.defs.get(a)
-        achain = []
-        while ad is not None and ad.op in ('trunc', 'zext', 'sext'):
-            achain.append(ad.op); ad = f.defs.get(ad.ops[0])
-        same = ad is not None and ad.op == 'load' and C.addr(ad.ops[0]) == C.addr(i.ops[1])
-        if n != w or chain or achain:
-            r.fail(inst, func=f.name, sig=f'{name}: bswap{n} on a {w}-bit member' + (' with ' + '/'.join(chain + achain) if chain or achain else ''),
-                   loc=i.loc, msg=f'{name} is {w} bits wide but is swapped with a {n}-bit byte swap' +
-                   (f' ({"/".join(achain)} before, {"/".join(chain)} after)' if chain or achain else ''))
-        elif not same:
-            r.fail(inst, func=f.name, sig=f'{name} := bswap of {C.val(a)[:50]}', loc=i.loc,
-                   msg=f'{name} receives the byte swap of another location: {C.val(a)}')
-        else:
-            r.ok(inst + f': {name} := bswap{n}({name})', func=f.name, loc=i.loc)
-        # array members: the store must sit in a loop covering all elements
-        arr = [s for s in steps if s[0] == 'index']
-        info = f.mod.md_fields(tref)
-        if info.get('tag') == 'DW_TAG_array_type':
-            nel = size // w
-            F = Facts(P, f, i.bb)
-            idx = C.val(strip_int_casts(f, arr[0][1])) if arr else None
-            ub = [x for x in F.upper_bound_sym(idx)] if idx else []
-            # the element loop as a recurrence: the address advances by one element per iteration from element 0, nel iterations
-            from ..poly import PolyCtx as _PC11, Poly as _P11
-            from ..loops import loops_of as _lo11, innermost as _in11, affine_in_t as _aff11
-            whole = False
-            try:
-                pc11 = _PC11(P, f, C)
-                L11 = _in11(_lo11(P, f, pc11), i.bb)
-                if L11 is not None:
-                    pt = L11.ptr_at_iteration(*pc11.ptr(i.ops[1]))
-                    base0 = pc11.ptr(i.ops[1])
-                    ab = _aff11(pt[1]) if pt is not None else None
-                    hg = [g_ for g_ in L11.guards() if g_.block is L11.header]
-                    T11 = L11.trip(hg[0]) if len(hg) == 1 else None
-                    if ab is not None and T11 is not None and ab[1] == _P11.const(w // 8) and T11.const_value() == nel:
-                        # starts at element 0 of the member: the offset at t = 0 is the member's own offset (no loop-variant part left)
-                        whole = ab[0].is_const() or not any(a_.startswith('%') for a_ in ab[0].atoms())
-                    if not whole and arr and T11 is not None and T11.const_value() == nel:
-                        # member[i] addressed by a struct GEP: i is the loop counter 0, 1, ..., nel-1
-                        ivn = strip_int_casts(f, arr[0][1])
-                        rec = L11.ivs().get(ivn)
-                        whole = rec is not None and rec[0] is not None and rec[0].is_zero() and rec[1] == _P11.const(1) and hg[0].iv == ivn
-                        if not whole:
-                            # the subscript as a function of the iteration: 0, 1, ..., nel-1 or nel-1, ..., 0 - the same elements
-                            it_ = L11.at_iteration(pc11.val(arr[0][1]))
-                            ab2 = _aff11(it_) if it_ is not None else None
-                            if ab2 is not None and ab2[0].is_const() and ab2[1].is_const():
-                                a0, b0 = ab2[0].const_value(), ab2[1].const_value()
-                                whole = (a0, b0) in ((0, 1), (nel - 1, -1))
-            except Exception:
-                whole = False
-            if whole or (idx and any(const_of(bv) == nel and strict for bv, strict, sg in ub) and re.match(r'^phi', idx)):
-                r.ok(f'member {name}: loop swaps all {nel} elements', func=f.name, loc=i.loc)
+        for i, steps in (st if union_ok else st[:1]):
+            v = i.ops[0]
+            d = f.defs.get(v)
+            chain = []
+            while d is not None and d.op in ('trunc', 'zext', 'sext'):
+                chain.append(d.op); d = f.defs.get(d.ops[0])
+            if d is None or d.op != 'call' or d.callee not in BSWAP:
+                r.fail(inst, func=f.name, sig=f'{name} := {C.val(v)[:60]}', loc=i.loc, msg=f'value stored into {name} is not a byte swap: {C.val(v)}')
+                continue
+            n = BSWAP[d.callee]
+            a = d.ops[0]
+            ad = f.defs.get(a)
+            achain = []
+            while ad is not None and ad.op in ('trunc', 'zext', 'sext'):
+                achain.append(ad.op); ad = f.defs.get(ad.ops[0])
+            same = ad is not None and ad.op == 'load' and C.addr(ad.ops[0]) == C.addr(i.ops[1])
+            if n != w or chain or achain:
+                r.fail(inst, func=f.name, sig=f'{name}: bswap{n} on a {w}-bit member' + (' with ' + '/'.join(chain + achain) if chain or achain else ''),
+                       loc=i.loc, msg=f'{name} is {w} bits wide but is swapped with a {n}-bit byte swap' +
+                       (f' ({"/".join(achain)} before, {"/".join(chain)} after)' if chain or achain else ''))
+            elif not same:
+                r.fail(inst, func=f.name, sig=f'{name} := bswap of {C.val(a)[:50]}', loc=i.loc,
+                       msg=f'{name} receives the byte swap of another location: {C.val(a)}')
             else:
-                r.fail(f'member {name}: all {nel} elements', func=f.name, sig=f'{name} loop bound {ub}', loc=i.loc,
-                       msg=f'the element loop for {name} does not run over all {nel} elements (index {idx}, bounds {ub})')
+                r.ok(inst + f': {name} := bswap{n}({name})', func=f.name, loc=i.loc)
+            # array members: the store must sit in a loop covering all elements
+            arr = [s for s in steps if s[0] == 'index']
+            info = f.mod.md_fields(tref)
+            if info.get('tag') == 'DW_TAG_array_type' and not union_ok:
+                nel = size // w
+                F = Facts(P, f, i.bb)
+                idx = C.val(strip_int_casts(f, arr[0][1])) if arr else None
+                ub = [x for x in F.upper_bound_sym(idx)] if idx else []
+                # the element loop as a recurrence: the address advances by one element per iteration from element 0, nel iterations
+                from ..poly import PolyCtx as _PC11, Poly as _P11
+                from ..loops import loops_of as _lo11, innermost as _in11, affine_in_t as _aff11
+                whole = False
+                try:
+                    pc11 = _PC11(P, f, C)
+                    L11 = _in11(_lo11(P, f, pc11), i.bb)
+                    if L11 is not None:
+                        pt = L11.ptr_at_iteration(*pc11.ptr(i.ops[1]))
+                        base0 = pc11.ptr(i.ops[1])
+                        ab = _aff11(pt[1]) if pt is not None else None
+                        hg = [g_ for g_ in L11.guards() if g_.block is L11.header]
+                        T11 = L11.trip(hg[0]) if len(hg) == 1 else None
+                        if ab is not None and T11 is not None and ab[1] == _P11.const(w // 8) and T11.const_value() == nel:
+                            # starts at element 0 of the member: the offset at t = 0 is the member's own offset (no loop-variant part left)
+                            whole = ab[0].is_const() or not any(a_.startswith('%') for a_ in ab[0].atoms())
+                        if not whole and arr and T11 is not None and T11.const_value() == nel:
+                            # member[i] addressed by a struct GEP: i is the loop counter 0, 1, ..., nel-1
+                            ivn = strip_int_casts(f, arr[0][1])
+                            rec = L11.ivs().get(ivn)
+                            whole = rec is not None and rec[0] is not None and rec[0].is_zero() and rec[1] == _P11.const(1) and hg[0].iv == ivn
+                            if not whole:
+                                # the subscript as a function of the iteration: 0, 1, ..., nel-1 or nel-1, ..., 0 - the same elements
+                                it_ = L11.at_iteration(pc11.val(arr[0][1]))
+                                ab2 = _aff11(it_) if it_ is not None else None
+                                if ab2 is not None and ab2[0].is_const() and ab2[1].is_const():
+                                    a0, b0 = ab2[0].const_value(), ab2[1].const_value()
+                                    whole = (a0, b0) in ((0, 1), (nel - 1, -1))
+                except Exception:
+                    whole = False
+                if whole or (idx and any(const_of(bv) == nel and strict for bv, strict, sg in ub) and re.match(r'^phi', idx)):
+                    r.ok(f'member {name}: loop swaps all {nel} elements', func=f.name, loc=i.loc)
+                else:
+                    r.fail(f'member {name}: all {nel} elements', func=f.name, sig=f'{name} loop bound {ub}', loc=i.loc,
+                           msg=f'the element loop for {name} does not run over all {nel} elements (index {idx}, bounds {ub})')
     r.require_min(9)
 
     # ---- R11b
@@ -294,8 +327,9 @@ def run(ctx):
     for p in enumerate_paths(P, gm):
         T = [(pr, a, b) for pr, a, b, w, i in p.truths()]
         magic = [(pr, a, b) for pr, a, b in T if a.endswith('.magic') or a.endswith('.magic)')]
-        is_nat = any(pr == 'eq' and a == '*arg0.magic' for pr, a, b in magic)
-        is_swp = any(pr == 'eq' and 'bswap' in a and '*arg0.magic' in a for pr, a, b in magic)
+        is_swp = any(pr == 'eq' and (('bswap' in a and '*arg0.magic' in a) or
+                                     (a == '*arg0.magic' and const_of(b) is not None and const_of(b) & 0xffffffff == SWAPPED_MAGIC)) for pr, a, b in magic)
+        is_nat = not is_swp and any(pr == 'eq' and a == '*arg0.magic' for pr, a, b in magic)
         if is_nat:
             nat.setdefault(p.ret, []).append(p)
         elif is_swp:
